@@ -172,7 +172,61 @@ def _operand_order_cases():
                           "cregs": [], "prewarm": False, "always_oracle": True})
 
 
+def _spanning_barrier_cases():
+    """Deterministic family (seed independent): barriers of every span that cross the partition boundaries such that partitions receive ONE,
+    two or all of the barrier's qubits (1+1, 1+2+1, 2+2, 1+3, a piece per partition, a barrier inside one partition, two barriers in a
+    row), with gates BEFORE and AFTER the barrier on every wire, under explicit labels in several orders and under automatic labelling,
+    through `separate_circuit` and through `partition_problem` (with and without a cut gate).  The oracle recomposes the subcircuits
+    through the qubit map and separates the recomposed circuit once more (all used qubits in one partition): the order of operations on
+    every wire must be the original one."""
+    def g(name, *qs, params=None):
+        d = {"name": name, "qubits": list(qs)}
+        if params:
+            d["params"] = list(params)
+        return d
+    def bar(*qs, label=None):
+        d = {"name": "barrier", "qubits": list(qs)}
+        if label:
+            d["label"] = label
+        return d
+    def pre_(nq):
+        return [g("ry", q, params=[0.3 + 0.2 * q]) for q in range(nq)]
+    def post(nq):
+        return [g(["x", "t", "sx", "z", "h", "s"][q], q) for q in range(nq)]
+    progs = [
+        # (nq, qregs, labels, barriers in the middle, extra in-partition two-qubit gates before the barrier)
+        (2, [2], [0, 1], [bar(0, 1)], []),
+        (2, [1, 1], [1, 0], [bar(1, 0)], []),
+        (3, [3], [0, 1, 0], [bar(0, 1, 2)], [g("cx", 0, 2)]),
+        (3, [3], [0, 1, 2], [bar(2, 0, 1)], []),
+        (4, [4], [0, 1, 1, 2], [bar(0, 1, 2, 3)], [g("cx", 1, 2)]),
+        (4, [2, 2], [0, 0, 1, 1], [bar(0, 1, 2, 3)], [g("cx", 0, 1), g("cz", 2, 3)]),
+        (4, [4], [0, 1, 1, 1], [bar(0, 1), bar(0, 3, label="sync")], [g("cx", 1, 2), g("cx", 2, 3)]),
+        (4, [4], [1, 0, 1, 0], [bar(3, 2, 1)], [g("cx", 0, 2), g("cx", 1, 3)]),
+        (5, [2, 3], [0, 0, 1, 2, 2], [bar(1, 2, 3), bar(0, 4)], [g("cx", 0, 1), g("cx", 3, 4)]),
+        (6, [6], [0, 1, 2, 0, 1, 2], [bar(0, 1, 2, 3, 4, 5)], [g("cx", 0, 3), g("cx", 1, 4), g("cx", 2, 5)]),
+        (3, [3], [0, 0, 1], [bar(0, 1), bar(2)], [g("cx", 0, 1)]),                      # control: barriers inside one partition
+    ]
+    for k, (nq, qregs, labels, bars, extra) in enumerate(progs):
+        instrs = pre_(nq) + extra + bars + post(nq)
+        base = {"nq": nq, "qregs": qregs, "instrs": instrs, "pool_idx": [[0, 1, 2], [3, 5, 4], [2, 1, 0]][k % 3], "bases": [], "cregs": [],
+                "prewarm": False, "always_oracle": True}
+        yield ("separate", dict(base, labels=labels, obs=None))
+        obs = [{"l": "ZXYZXY"[:nq], "p": 0}, {"l": "XZIYZI"[:nq], "p": 0}]
+        yield ("partition_problem", dict(base, labels=labels, obs=obs))
+        # one gate to cut between the first two partitions, before the barrier
+        a = labels.index(labels[0])
+        b = next(q for q in range(nq) if labels[q] != labels[0])
+        cut = g("rzz", a, b, params=[0.7]) if k % 2 else g("cx", b, a)
+        yield ("partition_problem", dict(base, instrs=pre_(nq) + extra + [cut] + bars + post(nq), labels=labels, obs=obs))
+        if k % 3 == 0:
+            # automatic labelling of the same circuit (the cut gate is then an ordinary connecting gate)
+            yield ("separate", dict(base, labels=None, obs=None))
+            yield ("partition_problem", dict(base, labels=None, obs=obs))
+
+
 def cases(rng, tier):
+    yield from _spanning_barrier_cases()
     yield from _operand_order_cases()
     yield from _bridge_barrier_cases()
     yield from _numbered_label_cases()
@@ -472,6 +526,61 @@ def _cut_meaning(qc_, pp, spanning, groups):
     return None
 
 
+def _round_trip(qc, groups, subcircuits):
+    """Recompose `subcircuits` (key -> circuit) through `groups` (key -> original qubit indices, in subcircuit order) into one circuit on the
+    original qubits and separate THAT circuit once more with all used qubits in a single partition.  Separation preserves the order of the
+    instructions of every subcircuit, so on every wire the names of the operations must come out in the original order (an instruction that
+    was cut counts as "cut" on both of its wires; barrier widths are not compared: a split barrier legitimately comes back in pieces)."""
+    from qiskit.circuit import QuantumCircuit
+    from qiskit_addon_cutting.utils.transforms import separate_circuit
+    nq = qc.num_qubits
+    if any(len(groups.get(k, ())) != sub.num_qubits for k, sub in subcircuits.items()):
+        return None       # reported by the width clauses
+    if any(sub.num_clbits != qc.num_clbits for sub in subcircuits.values()):
+        return None
+    back = QuantumCircuit(nq)
+    for reg in qc.cregs:
+        back.add_register(reg)
+    for k, sub in subcircuits.items():
+        for inst in sub.data:
+            back.append(inst.operation, [back.qubits[groups[k][sub.find_bit(q).index]] for q in inst.qubits],
+                        [back.clbits[sub.find_bit(c).index] for c in inst.clbits])
+    mapped = sorted(q for qs in groups.values() for q in qs)
+    if not mapped:
+        return None
+    owner = {q: k for k, qs in groups.items() for q in qs}
+
+    def tok(circ, inst, spans=False):
+        n = inst.operation.name
+        return "cut" if n in ("qpd_1q", "qpd_2q") or spans else n
+
+    def wires(circ, local=None, mark=False):
+        w = {}
+        for inst in circ.data:
+            idx = [circ.find_bit(q).index for q in inst.qubits]
+            idx = idx if local is None else [local[i] for i in idx]
+            spans = mark and inst.operation.name != "barrier" and len({owner.get(i) for i in idx}) > 1
+            for i in idx:
+                w.setdefault(i, []).append(tok(circ, inst, spans))
+        return w
+    try:
+        again = separate_circuit(back, ["all" if q in owner else None for q in range(nq)]).subcircuits
+    except Exception as e:  # noqa: BLE001
+        return f"the circuit recomposed from the subcircuits through the qubit map cannot be separated again: {type(e).__name__}: {str(e)[:120]}"
+    if list(again) != ["all"] or again["all"].num_qubits != len(mapped):
+        return None
+    want, got = wires(qc, mark=True), wires(again["all"], local=mapped)
+    for q in mapped:
+        if want.get(q, []) != got.get(q, []):
+            tags = sorted({(inst.operation.label or "")[:12] for sub in subcircuits.values() for inst in sub.data
+                           if inst.operation.name == "barrier" and (inst.operation.label or "").startswith("_uuid=")})
+            return (f"recomposing the subcircuits through the qubit map and separating the result again (one partition) changes the order of "
+                    f"operations on qubit {q}: {got.get(q, [])} instead of {want.get(q, [])}"
+                    + (f" -- barrier pieces in the subcircuits still carry the internal tag {tags[0]}.. of the split (not re-joined into a "
+                       f"plain barrier), so pieces of different partitions are fused at the place of the first one" if tags else ""))
+    return None
+
+
 def _oracle_partition_problem(payload, real, used):
     """is a refusal legitimate, and does an accepted request keep every used qubit and recombine its observables?"""
     nq, instrs, labs, obs = payload["nq"], payload["instrs"], payload["labels"], payload["obs"]
@@ -539,6 +648,10 @@ def _oracle_partition_problem(payload, real, used):
                 groups = {key: [q for q in range(nq) if labels_[q] is not None and labels_[q] == key] for key in pp.subcircuits}
             if all(key in groups and len(groups[key]) == sub.num_qubits for key, sub in pp.subcircuits.items()):
                 why = _cut_meaning(qc_, pp, spanning, groups)
+                if why:
+                    return why
+                # ... and the subcircuits, put together again through the partition's qubits, are a circuit that separates like the original
+                why = _round_trip(qc_, groups, pp.subcircuits)
                 if why:
                     return why
     except ValueError:
@@ -688,4 +801,17 @@ def oracle(kind, payload):
             got = [[i["name"], i["qubits"]] for i in c["instrs"]]
             if got != exp:
                 return f"subcircuit {l}: {got} expected {exp}"
+        # re-composition through the qubit map gives a circuit that separates like the original (order on every wire kept)
+        from qiskit_addon_cutting.utils.transforms import separate_circuit
+        try:
+            sep = separate_circuit(qc, labels)
+        except ValueError:
+            return None
+        groups = {}
+        for q, (lab, loc) in enumerate(sep.qubit_map):
+            if lab is not None:
+                groups.setdefault(lab, []).append((loc, q))
+        groups = {lab: [q for _, q in sorted(v)] for lab, v in groups.items()}
+        if all(lab in groups for lab in sep.subcircuits):
+            return _round_trip(qc, groups, sep.subcircuits)
     return None
